@@ -2194,6 +2194,27 @@ impl Kanata {
     }
 }
 
+/// Verification hooks (only compiled with `--cfg kanata_verif`): let an external harness drive the
+/// private, wall-clock based tick/live-reload path in virtual time. No behaviour of their own.
+#[cfg(kanata_verif)]
+impl Kanata {
+    /// Run the real (private) time-tick handler, which is the only caller of live reload.
+    pub fn verif_handle_time_ticks(&mut self, tx: &Option<Sender<ServerMessage>>) -> Result<u16> {
+        self.handle_time_ticks(tx)
+    }
+    /// Pretend the previous tick happened `by` ago.
+    pub fn verif_rewind_last_tick(&mut self, by: std::time::Duration) {
+        self.last_tick = instant::Instant::now()
+            .checked_sub(by)
+            .expect("rewind fits");
+        self.time_remainder = 0;
+    }
+    /// Read the deferred live-reload flag.
+    pub fn verif_live_reload_requested(&self) -> bool {
+        self.live_reload_requested
+    }
+}
+
 #[test]
 fn test_unmodmods_bits() {
     assert_eq!(UnmodMods::empty().bits(), 0u8);
